@@ -75,6 +75,28 @@ func CheckOffline(in OfflineInput, sit func(prop, s string)) []Finding {
 	}
 	ivs, _ := collectIntervals(in.Events)
 
+	// ---- C04: once the scheduler loop has begun an iteration after its runner was told to stop, it launches nothing:
+	// a task that was still waiting at that iteration top (hook H1) must never reach the runner afterwards ----
+	firstTop := map[string]core.Event{}
+	for _, e := range in.Events {
+		switch e.Kind {
+		case core.KIterAfterCancel:
+			if _, ok := firstTop[e.Job]; !ok {
+				firstTop[e.Job] = e
+			}
+		case core.KRunEnter, core.KRunRefused:
+			top, ok := firstTop[e.Job]
+			if !ok || e.Seq < top.Seq {
+				continue
+			}
+			st, _ := top.Data.(map[string]int32)
+			sit("C04", "runner event after the first loop iteration that saw the stop")
+			if v, known := st[e.Task]; known && v == 0 {
+				add([]string{"C04"}, "C04:task-launched-after-the-scheduler-saw-the-stop", "task %s of %s was handed to the runner (%s at #%d) although the scheduler loop had begun an iteration (#%d) after the runner was told to stop, and the task was still waiting then", e.Task, name(e.Job), e.Kind, e.Seq, top.Seq)
+			}
+		}
+	}
+
 	// ---- C02: at most once, dependencies first, nothing for unstartable jobs ----
 	perTask := map[[2]string][]*taskIv{}
 	for _, iv := range ivs {
